@@ -144,12 +144,85 @@ func arrfLine(name string, recv *V, args []*V) string {
 
 // ---- reference semantics over value trees ------------------------------------------------
 
+// vToLiquid: values.ToLiquid — a drop that yields a drop is resolved in turn (fixes/nested-drops-resolved).
 func vToLiquid(v *V) *V {
-	if v.Kind == 'D' {
-		return v.In
+	for {
+		switch {
+		case v.Kind == 'D':
+			v = v.In
+		case v.Kind == 'P' && v.In.Kind == 'D':
+			v = v.In.In
+		default:
+			return v
+		}
 	}
-	if v.Kind == 'P' && v.In.Kind == 'D' {
-		return v.In.In
+}
+
+// vResolveDrops: values.ResolveDrops — the drops at every depth of slices, arrays and maps (and of the values
+// of an ordered map) are the values they yield; struct fields and pointer targets are left alone.
+func vResolveDrops(v *V) *V {
+	v = vToLiquid(v)
+	switch v.Kind {
+	case 'L', 'A':
+		c := *v
+		c.Xs = make([]*V, len(v.Xs))
+		for i, x := range v.Xs {
+			c.Xs[i] = vResolveDrops(x)
+		}
+		return &c
+	case 'M', 'S':
+		c := *v
+		c.KVs = make([][2]*V, len(v.KVs))
+		for i, kv := range v.KVs {
+			c.KVs[i] = [2]*V{kv[0], vResolveDrops(kv[1])}
+		}
+		return &c
+	case 'K':
+		c := *v
+		c.Fs = make([]Field, len(v.Fs))
+		for i, f := range v.Fs {
+			c.Fs[i] = f
+			c.Fs[i].V = vResolveDrops(f.V)
+		}
+		return &c
+	}
+	return v
+}
+
+// vUniqForm: what uniq compares of an element — slices, fixed arrays and []byte as the generic slice of their
+// elements, maps as the generic map with the same key type, the drops inside them resolved, at every depth;
+// scalars, structs and the items of an ordered map as they are.
+func vUniqForm(v *V) *V {
+	v = vToLiquid(v)
+	switch v.Kind {
+	case 'L', 'A':
+		xs := make([]*V, len(v.Xs))
+		for i, x := range v.Xs {
+			xs[i] = vUniqForm(x)
+		}
+		return VAnys(xs...)
+	case 'b':
+		xs := make([]*V, len(v.S))
+		for i := range xs {
+			xs[i] = VBig(6, big.NewInt(int64(v.S[i])))
+		}
+		return VAnys(xs...)
+	case 'S':
+		if len(v.KVs) == 0 {
+			return VAnys()
+		}
+	case 'M':
+		kvs := make([][2]*V, len(v.KVs))
+		for i, kv := range v.KVs {
+			kvs[i] = [2]*V{kv[0], vUniqForm(kv[1])}
+		}
+		return VMap(v.KTy, TAny, kvs...)
+	case 'K':
+		kvs := make([][2]*V, len(v.Fs))
+		for i, f := range v.Fs {
+			kvs[i] = SKV(f.Name, vUniqForm(f.V))
+		}
+		return VMap(TStr, TAny, kvs...)
 	}
 	return v
 }
@@ -335,7 +408,8 @@ func refSortKey(x *V, key string) *V {
 	return VNil()
 }
 
-func sprintRef(v *V) string { return fmt.Sprint(v.Realise()) }
+// sprintRef: how the library prints a value in Go syntax, fmt.Sprint(values.ResolveDrops(v))
+func sprintRef(v *V) string { return fmt.Sprint(vResolveDrops(v).Realise()) }
 
 // ---- canonical form of a sort result -------------------------------------------------------
 
@@ -659,10 +733,12 @@ func arrfOracle(r *Run, line, name string, recv *V, args []*V, out any, err erro
 		if hasPointer(recv) {
 			return
 		}
+		// same element = same dynamic type and contents for scalars, same contents for arrays and maps whatever the
+		// Go type that holds them, a drop in them being its value (vUniqForm; fixes/nested-drops-resolved)
 		seen := map[string]bool{}
 		var want []*V
 		for _, x := range xs {
-			if e := x.Enc(); !seen[e] {
+			if e := vUniqForm(x).Enc(); !seen[e] {
 				seen[e] = true
 				want = append(want, x)
 			}
